@@ -76,6 +76,20 @@ fn wdl_drive(_s: &Seed, data: &[u8], p: &mut Probe) {
         p.call("WdlFile::validate", || f.validate());
     }
     p.call("WdlParser::parse", || wow_wdl::parser::WdlParser::with_version(wow_wdl::WdlVersion::Legion).parse(&mut Cursor::new(data)));
+    p.seed_valid = Some(p.all_ok);
+    // every other version pin (the pin decides which chunks the parser expects), and what a caller does with a parsed file:
+    // convert it and write it again
+    for v in [wow_wdl::WdlVersion::Vanilla, wow_wdl::WdlVersion::Wotlk, wow_wdl::WdlVersion::Cataclysm, wow_wdl::WdlVersion::Mop, wow_wdl::WdlVersion::Wod] {
+        if let Some(f) = p.call("WdlParser::parse", || wow_wdl::parser::WdlParser::with_version(v).parse(&mut Cursor::new(data))) {
+            if v == wow_wdl::WdlVersion::Wotlk {
+                p.call("WdlFile::validate", || f.validate());
+                if let Some(cv) = p.call("convert_wdl_file", || wow_wdl::conversion::convert_wdl_file(&f, wow_wdl::WdlVersion::Legion)) {
+                    p.call("WdlParser::write", || wow_wdl::parser::WdlParser::with_version(wow_wdl::WdlVersion::Legion).write(&mut Cursor::new(Vec::new()), &cv));
+                }
+                p.call("WdlParser::write", || wow_wdl::parser::WdlParser::with_version(v).write(&mut Cursor::new(Vec::new()), &f));
+            }
+        }
+    }
 }
 
 // ------------------------------------------------------------------ WDT ----
@@ -153,6 +167,23 @@ fn wdt_drive(_s: &Seed, data: &[u8], p: &mut Probe) {
         });
     }
     p.call("WdtReader::read", || wow_wdt::WdtReader::new(Cursor::new(data), V::BfA).read());
+    p.seed_valid = Some(p.all_ok);
+    // the remaining version pins, and what a caller does with a parsed file: convert it, write it again
+    for v in [V::Classic, V::TBC, V::Cataclysm, V::MoP, V::WoD, V::Legion, V::Shadowlands, V::Dragonflight] {
+        if let Some(mut f) = p.call("WdtReader::read", || wow_wdt::WdtReader::new(Cursor::new(data), v).read()) {
+            if v == V::Cataclysm {
+                p.call_plain("WdtFile::validate", || {
+                    let _ = f.validate();
+                    let _ = f.count_existing_tiles();
+                    let _ = f.is_wmo_only();
+                });
+                p.call("WdtWriter::write", || wow_wdt::WdtWriter::new(&mut Vec::new()).write(&f));
+                if p.call("convert_wdt", || wow_wdt::conversion::convert_wdt(&mut f, V::Cataclysm, V::BfA)).is_some() {
+                    p.call("WdtWriter::write", || wow_wdt::WdtWriter::new(&mut Vec::new()).write(&f));
+                }
+            }
+        }
+    }
 }
 
 pub fn formats() -> Vec<FormatDef> {
@@ -160,7 +191,7 @@ pub fn formats() -> Vec<FormatDef> {
         FormatDef {
             name: "wdl",
             family: "wdl",
-            entries: &["WdlParser::parse", "WdlFile::validate"],
+            entries: &["WdlParser::parse", "WdlFile::validate", "convert_wdl_file", "WdlParser::write"],
             seeds: wdl_seeds,
             drive: wdl_drive,
             cipher: None,
@@ -170,7 +201,7 @@ pub fn formats() -> Vec<FormatDef> {
         FormatDef {
             name: "wdt",
             family: "wdt",
-            entries: &["WdtReader::read", "WdtFile::validate"],
+            entries: &["WdtReader::read", "WdtFile::validate", "WdtWriter::write", "convert_wdt"],
             seeds: wdt_seeds,
             drive: wdt_drive,
             cipher: None,
